@@ -148,7 +148,8 @@ def specs(draw, lower_titles=True, steering=True):
         others.append(lastext.section("P", title("P"), pl))
     if draw(st.booleans()):
         ol = [{"t": "text", "text": draw(st.sampled_from([t("note "), "MNEM.UNIT  value : descr " + t("o"), "1.0 2.0 3.0",
-                                                        t("free text "), "VERS. 1.2 : fake", "NULL. 10.1 : fake"]))}
+                                                        t("free text "), "VERS. 1.2 : fake", "NULL. 10.1 : fake",
+                                                        "#1 tool stuck " + t("h"), "#----- " + t("r")]))}
               for _ in range(draw(st.integers(0, 3)))]
         if len(ol) >= 2 and draw(st.integers(0, 2)) == 0:
             # a blank line between two lines of ~Other is part of the text
